@@ -136,6 +136,12 @@ static Outcome run_job(const Job& J)
 	std::vector<double> region = J.region;
 	verif_mc_seed			   = J.seed;
 	O.value					   = Integrate_MC(f, region, J.budget, J.method);
+	// the region is passed by (non-const) reference: a caller that uses its vector again must find it as it was
+	for(size_t k = 0; k < region.size(); k++)
+		if(bits(region[k]) != bits(J.region[k]))
+			O.nout += 1000000;
+	if(region.size() != J.region.size())
+		O.nout += 1000000;
 	return O;
 }
 
@@ -297,6 +303,19 @@ int main(int argc, char** argv)
 			for(auto h : R6)
 				K.region.push_back(unhex(h));
 			K.par = {unhex("3f76424286cee630")};
+		}
+		else if(c % 6 == 1)
+		{	// small volumes: six dimensions, every width of the order of 1e-3 (volume ~ 1e-18, far below eps but an ordinary double)
+			static const char* M3[3] = {"Monte-Carlo", "Vegas", "Miser"};
+			K.method = M3[(c / 6) % 3];
+			K.dim	 = 6;
+			K.region.assign(12, 0.0);
+			for(int j = 0; j < 6; j++)
+			{
+				double w = g.logu(1e-3, 2.4e-3), cc = g.uni(-1, 1);
+				K.region[j]		= cc - 0.5 * w;
+				K.region[j + 6] = cc + 0.5 * w;
+			}
 		}
 		ChildResult r = run_child([&]() {
 			Outcome O	   = run_job(K);
